@@ -252,8 +252,37 @@ fn valid(p: &Element) -> String {
     }
 }
 
+/// a generator that is stuck on one output word for a while and then recovers
+pub struct StuckRng {
+    word: u64,
+    left: u64,
+    rec: rand_chacha::ChaChaRng,
+}
+impl RngCore for StuckRng {
+    fn next_u32(&mut self) -> u32 {
+        self.next_u64() as u32
+    }
+    fn next_u64(&mut self) -> u64 {
+        if self.left > 0 {
+            self.left -= 1;
+            self.word
+        } else {
+            self.rec.next_u64()
+        }
+    }
+    fn fill_bytes(&mut self, d: &mut [u8]) {
+        rand_core::impls::fill_bytes_via_next(self, d)
+    }
+    fn try_fill_bytes(&mut self, d: &mut [u8]) -> Result<(), rand_core::Error> {
+        self.fill_bytes(d);
+        Ok(())
+    }
+}
+
 fn rng_for(kind: &str, seed: u64) -> Box<dyn RngCore> {
     match kind {
+        // word = low 8 bits of the seed, stuck for (seed >> 8) & 0xffff calls
+        "stuck" => Box::new(Budget { inner: StuckRng { word: seed & 0xff, left: (seed >> 8) & 0xffff, rec: rand_chacha::ChaChaRng::seed_from_u64(seed) }, left: 400_000 }),
         "const" => Box::new(Budget { inner: ConstRng(seed as u8, seed), left: 100_000 }),
         "zero" => Box::new(Budget { inner: ConstRng(0, 0), left: 100_000 }),
         _ => Box::new(Budget { inner: rand_chacha::ChaChaRng::seed_from_u64(seed), left: 100_000 }),
